@@ -42,7 +42,7 @@ def run(ctx):
     mf = mir.MirFile(mir_path("dis"))
     ctx.trusted += ["rustc MIR of dis/main.rs", "mirsym", "summaries: clap builder = opaque, File::open / read_to_end = Ok (readable file), load_bytes = arbitrary Result",
                     "C04 for the panic-freedom of load_bytes and disassemble"]
-    ctx.bounds.append("main: all paths; corpus run: %s files" % ("~60" if ctx.tier == "quick" else "~400"))
+    ctx.bounds.append("main: all paths; corpus run: %s files" % ("~330" if ctx.tier == "quick" else "~10000"))
     fn = mf.get("main", kind="fn")
 
     def opaque(name):
@@ -149,6 +149,18 @@ def corpus(tier):
         files.append(bytes.fromhex(c03.HEADER + le(6 << 16 | 11) + le(1) + glsl + le(2 << 16 | 19) + le(2) + le(3 << 16 | 33) + le(3) + le(2) +
                                    le(5 << 16 | 54) + le(2) + le(4) + le(0) + le(3) + le(2 << 16 | 248) + le(5) + le(6 << 16 | 12) + le(2) + le(6) + le(1) + le(num) + le(6) +
                                    le(1 << 16 | 253) + le(1 << 16 | 56)))
+    # every short sequence over the structural opcodes (function / label / terminator / end / parameter / other): the loader's
+    # bracket automaton answers each with a module or an error, never a crash
+    import itertools
+    alpha = [le(5 << 16 | 54) + le(1) + le(5) + le(0) + le(4), le(2 << 16 | 248) + le(6), le(1 << 16 | 253), le(1 << 16 | 56),
+             le(3 << 16 | 55) + le(1) + le(7), le(1 << 16 | 0)]
+    pre = c03.HEADER + le(2 << 16 | 19) + le(1) + le(3 << 16 | 33) + le(4) + le(1)
+    for n in range(1, 4 if tier == "quick" else 6):
+        for seq in itertools.product(range(len(alpha)), repeat=n):
+            files.append(bytes.fromhex(pre + "".join(alpha[i] for i in seq)))
+    # byte-swapped magic and a fully byte-swapped module
+    files.append(bytes.fromhex("07230203") + b[4:])
+    files.append(b"".join(b[i:i + 4][::-1] for i in range(0, len(b), 4)))
     return files
 
 
